@@ -259,14 +259,15 @@ class C18(core.Prop):
             natoms = nb * nm - (1 if shape['shared'] else 0)
             pos = [[sym_real('p%d%s' % (i, c)) for c in 'xyz'] for i in range(natoms)]
             w = []
-            for i in range(nb * nm):
+            for i in range(natoms):            # one weight per atom, as on resolver output (a shared atom has one weight in both beads)
                 x = sym_real('w%d' % i)
                 symx.ENG.add(x.e >= 0)         # weight 0 is a legal annotation ([H;0]); the total weight of a bead is positive
                 w.append(x)
             for b in range(nb):
-                tot = w[b * nm]
-                for x in w[b * nm + 1:(b + 1) * nm]:
-                    tot = tot + x
+                mem = self._members(shape, b)
+                tot = w[mem[0]]
+                for a in mem[1:]:
+                    tot = tot + w[a]
                 symx.ENG.add(tot.e > 0)
             return {'pos': pos, 'w': w}
         n = shape['n']
@@ -280,6 +281,18 @@ class C18(core.Prop):
         npos = n + shape['extra_h']
         pos = [[sym_real('P%d%s' % (i, c)) for c in 'xyz'] for i in range(npos)]
         return {'el': el, 'charges': charges, 'orders': orders, 'pos': pos}
+
+    @staticmethod
+    def _members(shape, b):
+        """atoms of bead b; with 'shared' the last slot of the last bead re-uses atom 0: one atom shared by two beads"""
+        nb, nm = shape['nbeads'], shape['nmem']
+        out = []
+        for m in range(nm):
+            atom = b * nm + m
+            if shape['shared'] and atom == nb * nm - 1:
+                atom = 0
+            out.append(atom)
+        return out
 
     def _graph(self, shape, inp):
         keys = self._keys(shape)
@@ -295,20 +308,28 @@ class C18(core.Prop):
         if shape['mode'] == 'forward':
             def run():
                 nb, nm = shape['nbeads'], shape['nmem']
+                # the two graphs as the resolver returns them: atoms carry weight and membership ('fragid', one entry per
+                # bead they belong to), and each bead's 'graph' holds copies of its atoms' attributes
                 aa = nx.Graph()
+                fragid = {}
+                for b in range(nb):
+                    for atom in self._members(shape, b):
+                        fragid.setdefault(atom, []).append(b)
                 for i, p in enumerate(inp['pos']):
-                    aa.add_node(10 + i, position=FNp.array(list(p)))
+                    aa.add_node(10 + i, position=FNp.array(list(p)), weight=inp['w'][i], fragid=list(fragid[i]), element='C',
+                                fragname='F%d' % fragid[i][0], atomname='C%d' % i)
                 cg = nx.Graph()
-                k = 0
                 for b in range(nb):
                     gf = nx.Graph()
-                    for m in range(nm):
-                        atom = b * nm + m
-                        if shape['shared'] and atom == nb * nm - 1:
-                            atom = 0          # the last slot re-uses atom 0: one atom shared by two beads
-                        gf.add_node(10 + atom, weight=inp['w'][k])
-                        k += 1
-                    cg.add_node(b, graph=gf)
+                    mem = self._members(shape, b)
+                    for atom in mem:
+                        gf.add_node(10 + atom, **{k_: v for k_, v in aa.nodes[10 + atom].items() if k_ != 'position'})
+                    for x, y in zip(mem, mem[1:]):
+                        gf.add_edge(10 + x, 10 + y, order=1)
+                        aa.add_edge(10 + x, 10 + y, order=1)
+                    cg.add_node(b, graph=gf, fragname='F%d' % b)
+                    if b:
+                        cg.add_edge(b - 1, b, order=1)
                 M.coordinates.forward_map_molecule(cg, aa)
                 return {b: vec_list(cg.nodes[b]['position']) for b in cg.nodes}
             return core.guard(run)
@@ -337,16 +358,11 @@ class C18(core.Prop):
         o = obs[1]
         if shape['mode'] == 'forward':
             nb, nm = shape['nbeads'], shape['nmem']
-            k = 0
             for b in range(nb):
                 sw = 0
                 acc = [0, 0, 0]
-                for m in range(nm):
-                    atom = b * nm + m
-                    if shape['shared'] and atom == nb * nm - 1:
-                        atom = 0
-                    w = inp['w'][k]
-                    k += 1
+                for atom in self._members(shape, b):
+                    w = inp['w'][atom]
                     sw = sw + w
                     acc = [acc[c] + w * inp['pos'][atom][c] for c in range(3)]
                 # bead * sum(w) == sum(w_i p_i)   (multiplied out: no division in the query)
@@ -399,5 +415,5 @@ class C18(core.Prop):
 PROP = C18()
 
 # shape families added after the first complete pass (DESIGN 8.6-8.11); appended to the bounds written into the evidence
-BOUNDS_ADDED = '; weights >= 0 with positive total; embed shapes with a hydrogen as second node'
+BOUNDS_ADDED = '; weights >= 0 with positive total; embed shapes with a hydrogen as second node; forward-map inputs carry weight / fragid on the atoms and attribute copies in the bead graphs, as resolver output does'
 PROP.BOUNDS = {k: v + BOUNDS_ADDED for k, v in PROP.BOUNDS.items()}
